@@ -20,6 +20,17 @@ theorem dispatch_probes :
     Probes.csiOk Gen.CSI_PROBES = true ∧ Probes.escOk Gen.ESC_PROBES = true ∧ Probes.basicOk Gen.BASIC_PROBES = true := by
   decide +kernel
 
+/-- The private marker is part of the event: the `private` argument `erase_in_display`, `erase_in_line` and
+    `report_device_attributes` receive from the compiled crate's `csi_dispatch` is `Some(true)` exactly for a
+    sequence marked with `?` (`CSI ? 2 J` is DECSED for a listener, not plain ED 2; `CSI ? c` is not the DA
+    request), and nothing otherwise - for every probed final, parameter shape and flag. -/
+theorem private_argument_probes : Probes.csiPrivOk Gen.CSI_PROBES = true := by
+  decide +kernel
+
+theorem private_argument (c : Nat) (h : c = 74 ∨ c = 75 ∨ c = 99) :
+    csiPrivateArg c true = 3 ∧ csiPrivateArg c false = 1 := by
+  rcases h with e | e | e <;> subst e <;> decide
+
 /-- non-vacuity: the slice is not empty -/
 example : Gen.CSI_PROBES.length ≥ 1000 ∧ Gen.ESC_PROBES.length = 256 ∧ Gen.BASIC_PROBES.length = 256 := by
   decide +kernel
